@@ -283,13 +283,16 @@ theorem guards_sufficient :
    valuesEqual_noPanic, numOperands_noPanic⟩
 
 open Ecal.GoPrim Ecal.Lemmas.C06Guards Ecal.Ev in
-/-- REFINEMENT. The evaluator model `Ecal.Ev` — the model that is compared with Go on every run — computes
-    exactly these sites where the Go code has them: its list read (`listIndex`, then the backing array) is
-    `Site.listRead` on the slice's elements; its map-literal step, its `%`, its operand match and the
-    comparable branch of its equality are the sites; `delAt` / `insertAt` (after 4ad50aa: new lists) store exactly
-    what `Site.del` / `Site.insert` compute on the slice's elements (`del_eq`, `insert_eq`, `delAt_backing`,
-    `insertAt_backing`). So a difference between a guard of /repo and the guard in the site shows up in the
-    correspondence run, and `guards_sufficient` is a statement about the compared model. -/
+/-- REFINEMENT, and what it does NOT say. Conjuncts 1, 2, 5 are equations about definitions of `Ecal.Ev` (the model
+    that is compared with Go on every run): its list read (`listIndex`, then the backing array) IS `Site.listRead` on
+    the slice's elements, `Site.mapLit` stores with `Ev.mapStore`, the comparable branch of `Site.valuesEqual` is
+    `Ev.keyEq`; `delAt_backing` / `insertAt_backing` (Lemmas/C06Guards) say that `Ev.delAt` / `Ev.insertAt` store the
+    lists of conjuncts 6, 7. Conjuncts 3, 4, 6, 7 only NORMALISE the sites (`Site.modint`, `Site.numOperands`,
+    `Site.del`, `Site.insert` as plain if-then-else); that `eval` on a `modint` node, `numOp`, `delB`, `addB` use the
+    same guard is BY INSPECTION of Model/Eval.lean (`if yi = 0`, the operand match, `if i < 0 || i ≥ l`,
+    `if i < 0 || i > l`) — no theorem here mentions those four definitions, deleting the guard in Eval.lean would not
+    break a proof. What does break then is the correspondence: `5 % 0`, `1 + "a"`, `del([1], 5)`, `add([1], 2, 7)` are
+    directed cases of every run, and the model would answer with a value where Go answers with an error. -/
 theorem model_is_guard_then_primitive :
     (∀ (fld : List Nat) (b : List Val) (l : Nat) (s : St), l ≤ b.length →
       ((do let i ← listIndex fld l; pure (b.getD i Val.null) : M Val).run.run s) = (Site.listRead (b.take l) fld, s)) ∧
